@@ -57,6 +57,8 @@ def scenarios() -> dict[str, dict[str, Any]]:
         "dup-initial": {"spec": {"name": "dup", "stages": [stage("j", [], [ok(), ok()]), stage("z", ["j"], [ok()])]}, "hold": "StartStage:j", "workers": 2, "dup": 1},
         # the late branch completes while the early-firing join is being started
         "disc-late": {"spec": fork(2, join="DISC"), "hold": "StartStage:j|CompleteStage:b1", "workers": 2, "need": ["StartStage:j", "CompleteStage:b1"]},
+        "disc-late-startfirst": {"spec": fork(2, join="DISC"), "hold": "StartStage:j|CompleteStage:b1", "workers": 2, "first": "StartStage:j"},
+        "nofm-late-startfirst": {"spec": fork(3, join="NOFM", threshold=2), "hold": "StartStage:j|CompleteStage:b2", "workers": 3, "first": "StartStage:j"},
         "nofm-late": {"spec": fork(3, join="NOFM", threshold=2), "hold": "StartStage:j|CompleteStage:b2", "workers": 3},
     }
 
@@ -86,7 +88,7 @@ def prepare(sc: dict[str, Any]) -> dict[str, Any]:
 
         run.w.queue.push(StartStage(execution_type="PIPELINE", execution_id="W1", stage_id="W1-j"))
     pending = [_key(r) for r in run.w.pending()]
-    return {"blob": run.w.snapshot(), "ledger": tasks.ledger_snapshot(), "pending": pending, "steps": run.steps}
+    return {"blob": run.w.snapshot(), "ledger": tasks.ledger_snapshot(), "pending": pending, "steps": run.steps, "first": sc.get("first")}
 
 
 def make_world_factory(prep: dict[str, Any]):
@@ -95,20 +97,41 @@ def make_world_factory(prep: dict[str, Any]):
         tasks.LEDGER.extend(dict(e) for e in prep["ledger"])
         w = World(restore=prep["blob"], share_connection=True)
         w._harness_sql("UPDATE queue_messages SET deliver_at = ?, locked_until = NULL", (LONG_AGO,))
+        if prep.get("first"):
+            # the queue promises no order between ready messages: this scenario has the named one polled first
+            for rid, mt, payload in w.rows("SELECT id, message_type, payload FROM queue_messages"):
+                if _key({"type": mt, "payload": payload}) == prep["first"]:
+                    w._harness_sql("UPDATE queue_messages SET deliver_at = ? WHERE id = ?", ("1999-01-01T00:00:00+00:00", rid))
         w.set_ctx(prep["steps"] + 1, "concurrent")
         return w
     return make
 
 
 def judge(c: Campaign, name: str, sc: dict[str, Any], w: World, s: Sched, pre: dict[int, int], extra=()) -> None:
-    # sequential drain of whatever is left
-    run = Run(sc["spec"], Schedule(), world=w)
+    # Sequential drain of whatever is left: in FIFO order and, from the same post-race state, in one other order (the messages the
+    # racing workers queued - a StartTask of the first plan, the late branch's StartStage - may be picked up by different workers
+    # in either order).
+    blob = w.snapshot()
+    led0 = tasks.ledger_snapshot()
+    ALT = ([2], [2, 2], [4], [2, 4])
+    alt = list(ALT[(len(pre) + sum(pre.keys())) % len(ALT)])
+    _assess(c, name, sc, w, s, pre, [], extra)
+    tasks.reset_ledger()
+    tasks.LEDGER.extend(dict(e) for e in led0)
+    w2 = World(restore=blob, share_connection=True)
+    _assess(c, name, sc, w2, s, pre, alt, None)
+
+
+def _assess(c: Campaign, name: str, sc: dict[str, Any], w: World, s: Sched, pre: dict[int, int], drain: list[int], extra) -> None:  # noqa: ANN001
+    run = Run(sc["spec"], Schedule(list(drain), 2), world=w)
     run.steps = 1000
     run.drain()
     got = run.outcome()
     audit = w.audit()
     qlog = w.qlog()
     case = {"scenario": name, "preemptions": {str(k): v for k, v in sorted(pre.items())}}
+    if drain:
+        case["drain"] = list(drain)
     starts = oracles.stage_starts(audit)
     viol: list[tuple[str, str]] = []
     for sid in ("W1-j", "W1-z"):
@@ -139,7 +162,10 @@ def judge(c: Campaign, name: str, sc: dict[str, Any], w: World, s: Sched, pre: d
     if any(e.startswith("harness:") for e in s.errors):
         c.harness_error(f"{name}: {s.errors[:2]}")
     for clause, detail in viol:
-        c.violation(f"{clause}|{name}", case, detail)
+        c.violation(f"{clause}|{name}", case, detail + (f" (post-race drain order {drain})" if drain else ""))
+    if extra is None:
+        c.classes["alt-drain"] = c.classes.get("alt-drain", 0) + 1
+        return
     # non-trivial: two workers were inside the StartStage handler for j at the same time (both had read j before either claimed)
     in_handler: dict[int, bool] = {}
     overlap = False
